@@ -169,7 +169,17 @@ def build_harness(cmds=('owrun',), tags='verif', race=False, suffix=''):
 
 
 # ---------------------------------------------------------------- running cases
-def run_lines(binary, lines, timeout=600, crash_token='CRASH', env=None, cwd=None):
+def _big_stack():
+    # the extracted model is structurally recursive over its input lists (not tail-recursive): series of several hundred
+    # thousand steps need more than the default 8 MB of stack
+    import resource
+    try:
+        resource.setrlimit(resource.RLIMIT_STACK, (resource.RLIM_INFINITY, resource.RLIM_INFINITY))
+    except (ValueError, OSError):
+        pass
+
+
+def run_lines(binary, lines, timeout=600, crash_token='CRASH', env=None, cwd=None, big_stack=False):
     """Feed one case per line, get one result line per case.  If the process dies
     (a Go panic inside a goroutine cannot be recovered), the case it died on is
     reported as CRASH and the rest are run in a fresh process."""
@@ -180,7 +190,8 @@ def run_lines(binary, lines, timeout=600, crash_token='CRASH', env=None, cwd=Non
         chunk = lines[i:]
         try:
             p = subprocess.run([binary], input='\n'.join(chunk) + '\n', stdout=subprocess.PIPE,
-                               stderr=subprocess.PIPE, text=True, timeout=timeout, env=env, cwd=cwd)
+                               stderr=subprocess.PIPE, text=True, timeout=timeout, env=env, cwd=cwd,
+                               preexec_fn=_big_stack if big_stack else None)
         except subprocess.TimeoutExpired as e:
             # the process hangs on some case: the answers received so far stand, the case it hangs on is TIMEOUT (not an
             # exception of the check), the rest is run in a fresh process
@@ -216,6 +227,7 @@ def run_impl(lines, binary='owrun', **kw):
 
 
 def run_model(lines, **kw):
+    kw.setdefault('big_stack', True)
     return run_lines(CURRENT_DRIVER[0], lines, crash_token='MODELCRASH', **kw)
 
 
